@@ -76,14 +76,20 @@ X2 == Mk3("t", Single("y", I("2")), "short", Single("$replace", L(<<Single("a", 
 (* empty local containers that a merge fills: the filled form must stay on the evaluation copy *)
 T6 == Mk2("tmpl", Mk2("opts", Single("r", I("3")), "lst", L(<<I("1")>>)),
           "svc", Mk3("$merge", S("tmpl"), "opts", EmptyMap, "lst", EmptyList))
-BasesC19 == { <<T1>>, <<T2>>, <<T3>>, <<T1, T2>>, <<T4, T3>>, <<T5, X1>>, <<X2, T5>>, <<T6>> }
+(* a cross-document merge whose host holds a placeholder for a key of the target, the target's value for *)
+(* that key holding a reference of its own: what is filled in must be a copy                              *)
+T7 == Mk3("name", S("defaults"), "limits", Single("cpu", I("2")),
+          "service", Mk2("port", I("80"), "resources", Mk2("$merge", L(<<Single("name", S("defaults")), S("limits")>>), "memory", S("1Gi"))))
+X3 == Mk2("name", S("api"), "server", Mk2("$merge", L(<<Single("name", S("defaults")), S("service")>>), "resources", S("$required")))
+BasesC19 == { <<T1>>, <<T2>>, <<T3>>, <<T1, T2>>, <<T4, T3>>, <<T5, X1>>, <<X2, T5>>, <<T6>>, <<T7, X3>> }
 PatchesC19 == {
   Single("z", I("9")), Single("a", I("2")), Single("$repeat", I("3")),
   Single("t", Single("y", I("2"))), Single("k", Single("v", I("2"))),
   Mk2("$match", Null, "q", S("$\"{q2}\"")) , Mk2("$match", EmptyMap, "q2", I("1")),
   Single("n", S("$required")),
   (* changes only the document other documents refer to *)
-  Mk2("$match", Single("a", I("1")), "t", Single("x", I("5")))
+  Mk2("$match", Single("a", I("1")), "t", Single("x", I("5"))),
+  Mk2("$match", Single("name", S("defaults")), "limits", Single("cpu", I("4")))
 }
 CallsC19 == {MergeCall(p, "base") : p \in PatchesC19}
             \cup {[op |-> "docs"], [op |-> "out"], [op |-> "outbytes"]}
